@@ -160,9 +160,16 @@ PanicElsewhere ==
       \/ (E.op.op = "build" /\ ~On("C10"))
    /\ UNCHANGED <<dict, opts, ws, cnt, memo>>
 
+(* sentences with a run of more than 65535 category-sharing characters: too long to be re-derived
+   here; the harness evaluates the partition clause (order, contiguity / gaps over spaces only,
+   surfaces and byte ranges = slices of the input) and this action asserts its verdict *)
+BigSent == /\ Is("bigsent")
+           /\ A("C01", "very-long-run-is-tokenized-and-partitioned", ~E.panic /\ E.partition_ok /\ E.ntok > 0)
+           /\ UNCHANGED <<dict, opts, ws, cnt, memo>>
+
 Summary == Is("stress_summary") /\ UNCHANGED <<dict, opts, ws, cnt, memo>>
 
-Next == Summary \/ PanicStuck \/ PanicElsewhere \/ Session \/ Reset \/ Tok \/ Read \/ CInit \/ CUpd \/ Probs \/ Respace \/ OptErr
+Next == Summary \/ BigSent \/ PanicStuck \/ PanicElsewhere \/ Session \/ Reset \/ Tok \/ Read \/ CInit \/ CUpd \/ Probs \/ Respace \/ OptErr
 Spec == Init /\ [][Next]_vars
 
 Accepted ==
